@@ -109,10 +109,10 @@ def roundtrip(pkg, ns=None):
     return True, ""
 
 
-def run(top, style="proc", setattr_conns=False, riders=True, spice=True, dict_anon=False, flip=False):
+def run(top, style="proc", setattr_conns=False, riders=True, spice=True, dict_anon=False, flip=False, copies=False):
     """the common harness tail: build through the public API, export, compare with the oracle"""
     env.reset_all()
-    m = build(top, style, setattr_conns, dict_anon, flip)
+    m = build(top, style, setattr_conns, dict_anon, flip, copies)
     pkg = h.to_proto(m)
     top_c = env.deep_realize(top)
     with env.notrace():
